@@ -40,13 +40,14 @@ def same(snapshot, normal):
     return diff(s, n) == ""
 
 
-def _sdl_content(desc: bool, dep: bool, default: int, recursion: int, schema_def: bool, mask: int, mutation: bool) -> bool:
+def _sdl_content(desc: bool, dep: bool, default: int, recursion: int, schema_def: bool, mask: int, mutation: bool, text: int = 0) -> bool:
     """
-    pre: 0 <= default < len(S.DEFAULT_KINDS) and 0 <= recursion <= 3 and 0 <= mask < len(MASKS)
+    pre: 0 <= default < len(S.DEFAULT_KINDS) and 0 <= recursion <= 3 and 0 <= mask < len(MASKS) and 0 <= text < len(S.TEXT_SUFFIXES)
+    pre: text == 0 or (desc and dep and mutation and not schema_def and (thorough() or (default <= 1 and recursion == 3)))
     pre: shard_of(default)
     post: _
     """
-    opts = dict(desc=True if desc else False, dep=True if dep else False, default=concrete_int(default, 0, len(S.DEFAULT_KINDS) - 1),
+    opts = dict(text=concrete_int(text, 0, len(S.TEXT_SUFFIXES) - 1), desc=True if desc else False, dep=True if dep else False, default=concrete_int(default, 0, len(S.DEFAULT_KINDS) - 1),
                 recursion=concrete_int(recursion, 0, 3), schema_def=True if schema_def else False, present=pick(mask, MASKS), mutation=True if mutation else False)
     with untraced():
         rec = S.base_record(opts)
@@ -193,15 +194,70 @@ def _text_cases():
     ]
 
 
+# ---- types handed in as objects (additional_types) are inputs, not scratch space: building twice from the same objects gives the same schema
+REUSE_EXTENSIONS = ("extend enum Shade { BLUE }", "extend type Extra { b: Int }", "extend interface Thing { more: Int }", "extend union Either = Other",
+                    "extend input Basket { later: Int = 3 }")
+REUSE_BASE = "type Query { e(c: Shade, basket: Basket): Extra thing: Thing either: Either }\ntype Other { o: Int }\n"
+
+
+def reuse_objects():
+    from py_gql.schema import EnumType, Field, InputField, InputObjectType, Int, InterfaceType, ObjectType, UnionType
+    extra = ObjectType("Extra", [Field("a", Int)])
+    return [EnumType("Shade", ["RED"]), extra, InterfaceType("Thing", [Field("id", Int)]), UnionType("Either", [extra]), InputObjectType("Basket", [InputField("n", Int)])]
+
+
+def members_of(t):
+    from py_gql.schema import EnumType, UnionType
+    attr = "values" if isinstance(t, EnumType) else ("types" if isinstance(t, UnionType) else "fields")
+    return [m.name for m in getattr(t, attr)]
+
+
+def _sdl_reuse(mask: int, second_ignores: bool, third: bool) -> bool:
+    """
+    pre: 1 <= mask < 32
+    post: _
+    """
+    M = concrete_int(mask, 1, 31)
+    IG, TH = (True if second_ignores else False), (True if third else False)
+    with untraced():
+        sdl = REUSE_BASE + "\n".join(e for i, e in enumerate(REUSE_EXTENSIONS) if M >> i & 1)
+        objs = reuse_objects()
+        before = [members_of(o) for o in objs]
+        fresh = S.snapshot(build_schema(sdl, additional_types=reuse_objects()))
+        fresh_ignored = S.snapshot(build_schema(sdl, additional_types=reuse_objects(), ignore_extensions=True))
+        problem = ""
+        try:
+            first = S.snapshot(build_schema(sdl, additional_types=objs))
+            second = S.snapshot(build_schema(sdl, additional_types=objs, ignore_extensions=IG))
+            third_ = S.snapshot(build_schema(sdl, additional_types=objs)) if TH else None
+        except Exception as e:  # noqa
+            problem = "building again from the same type objects raised %r" % (e,)
+        if not problem and first != fresh:
+            problem = "first build differs from a build with fresh objects"
+        if not problem and second != (fresh_ignored if IG else fresh):
+            problem = "second build from the same objects differs"
+        if not problem and TH and third_ != fresh:
+            problem = "third build from the same objects differs"
+        if not problem and [members_of(o) for o in objs] != before:
+            problem = "the type objects passed in were modified"
+    return result(problem == "", True)
+
+
 CONDITIONS = [
     Cond(name="sdl_text", fn=_sdl_text, kind="concrete", cases=_text_cases, bound="fixed SDL texts (named defects); NOT a solver result"),
     Cond(
+        name="sdl_reuse", fn=_sdl_reuse, quick=60, thorough=120,
+        bound="types given as objects through additional_types (enum, object, interface, union, input object) x every non-empty subset of 5 extensions targeting them x a second build from the SAME objects (with or without "
+              "ignore_extensions) x a third: every build equals the one from fresh objects, the objects handed in keep their members",
+        symbolic={"mask": "choice: which extensions", "second_ignores,third": "choice"}, witness={"mask": 1, "second_ignores": True, "third": True},
+    ),
+    Cond(
         name="sdl_content", fn=_sdl_content, quick=150, thorough=400, per_path=60, shards_quick=12, shards_thorough=12,
         bound="generated type-system documents: descriptions on/off, deprecations on/off, %d default-value kinds (int boundaries, null, string with escapes, bool, float, enum, list, coerced single item, input object, ID), "
-              "4 recursion patterns (none / self / mutual for object and input types), schema definition or conventional names, 8 presence masks of interface/union/enum/input/scalar/directive, mutation on/off" % len(S.DEFAULT_KINDS),
-        symbolic={"desc,dep,schema_def,mutation": "choice", "default": "choice: default value kind", "recursion": "choice", "mask": "choice: which kinds are present"},
+              "4 recursion patterns (none / self / mutual for object and input types), schema definition or conventional names, 8 presence masks of interface/union/enum/input/scalar/directive, mutation on/off, 9 texts appended to every description and deprecation reason (escapes, second line, astral, trailing backslash / quote, U+2028)" % len(S.DEFAULT_KINDS),
+        symbolic={"desc,dep,schema_def,mutation": "choice", "default": "choice: default value kind", "recursion": "choice", "mask": "choice: which kinds are present", "text": "choice: description / reason text"},
         assumptions=["oracle: the generator's declared-content record (harness/sdlgen.py normal()) vs the built schema read back through public attributes (snapshot()), exact equality incl. member order"],
-        witness={"desc": True, "dep": True, "default": 1, "recursion": 0, "schema_def": False, "mask": 0, "mutation": True},
+        witness={"desc": True, "dep": True, "default": 1, "recursion": 0, "schema_def": False, "mask": 0, "mutation": True, "text": 0},
     ),
     Cond(
         name="sdl_layout", fn=_sdl_layout, quick=150, thorough=400, per_path=60, shards_quick=9, shards_thorough=9,
